@@ -27,6 +27,7 @@ type tagBackend struct {
 	piece      int           // bytes per write (0: 1000)
 	eofs       int           // connections that saw the end of their stream
 	slowReader time.Duration // pause after every read (a host that drains its socket slowly)
+	noRead     bool          // a host that sends but never reads what the client sends: it notices the end when a write fails
 }
 
 func newTagBackend(sends []byte) *tagBackend {
@@ -54,7 +55,13 @@ func newTagBackend(sends []byte) *tagBackend {
 						if end > len(b.sends) {
 							end = len(b.sends)
 						}
-						c.Write(b.sends[off:end])
+						if _, werr := c.Write(b.sends[off:end]); werr != nil && b.noRead {
+							b.mu.Lock()
+							b.eof = true
+							b.eofs++
+							b.mu.Unlock()
+							return
+						}
 						if b.pace > 0 {
 							time.Sleep(b.pace)
 						}
@@ -63,6 +70,9 @@ func newTagBackend(sends []byte) *tagBackend {
 			}()
 			go func() {
 				buf := make([]byte, 32768)
+				if b.noRead {
+					return
+				}
 				for {
 					n, err := c.Read(buf)
 					if b.slowReader > 0 {
